@@ -3,9 +3,17 @@
    wire handling and git-as-peer pairings are exercised by the correspondence
    suites, not proved).  Only statements here; proofs live in Proofs/C36.v. *)
 From Coq Require Import List NArith ZArith Bool Lia String.
-From GoGit Require Import Base.Out Model.RefSpec Model.RevList Model.PushRules Model.FetchProto
-     Spec.ObjReach Proofs.C38 Proofs.C36 Proofs.C36Refspec.
+From GoGit Require Import Base.Out Gen.C36 Model.RefSpec Model.RevList Model.PushRules Model.FetchProto
+     Spec.ObjReach Proofs.C38 Proofs.C36 Proofs.C36Refspec Proofs.C36Gen.
 Import ListNotations.
+
+(* the negotiation constants of the model are the ones in negotiate.go
+   (regenerated from the source on every run: Gen/C36.v) *)
+Theorem C36_flush_constants :
+  Gen.C36.transport_initialFlush = Z.of_nat INITIAL_FLUSH /\ Gen.C36.transport_pipeSafeFlush = Z.of_nat PIPESAFE_FLUSH /\
+  Gen.C36.transport_largeFlush = Z.of_nat LARGE_FLUSH /\ Gen.C36.transport_maxInVein = Z.of_nat MAX_IN_VEIN.
+Proof. exact gen_constants. Qed.
+Print Assumptions C36_flush_constants.
 
 (* NegotiatePack terminates whatever the server acknowledges: against any
    acknowledgement table, stateful or stateless, the round loop ends within
